@@ -326,7 +326,19 @@ class StageT1(StageComp):
         store, gids = self._store(case)
         total = self._run(case, gids, store)
         per = [self._run(case, [g], self._store(case)[0]) for g in gids]
-        return {"total": total, "per": per}
+        # the same call graph by graph, each graph under what the earlier ones left of the slice budgets
+        thr, tp, ti = [], 0, 0
+        for g in gids:
+            left = dict(case["caps"])
+            if "t1_pops" in left:
+                left["t1_pops"] -= tp
+            if "t1_iters" in left:
+                left["t1_iters"] -= ti
+            m = self._run(dict(case, caps=left), [g], self._store(case)[0])
+            thr.append(dict(m, left=left))
+            tp += m["pops"]
+            ti += m["iters"]
+        return {"total": total, "per": per, "threaded": thr}
 
     def monitors(self, case, io):
         caps = case["caps"]
@@ -336,8 +348,13 @@ class StageT1(StageComp):
         for gi, m in enumerate(io["per"]):
             res.append(("t1_pops_clamped_per_graph", m["pops"] <= max(pc, 0), f"graph {gi}: pops {m['pops']} > cap {pc}"))
             res.append(("t1_iters_clamped_per_graph", m["iters"] <= max(ic, 0), f"graph {gi}: iters {m['iters']} > cap {ic}"))
-        res.append(("t1_total_is_sum", io["total"]["pops"] == sum(m["pops"] for m in io["per"])
-                    and io["total"]["iters"] == sum(m["iters"] for m in io["per"]), f"total {io['total']} per {io['per']}"))
+        thr = io.get("threaded") or []
+        res.append(("t1_total_is_shared_budget_sum", io["total"]["pops"] == sum(m["pops"] for m in thr)
+                    and io["total"]["iters"] == sum(m["iters"] for m in thr),
+                    f"total {io['total']} is not the sum of the graphs run one after the other, each under the slice budget the earlier ones left: {thr}"))
+        if not caps:
+            res.append(("t1_total_is_sum_without_budget", io["total"]["pops"] == sum(m["pops"] for m in io["per"])
+                        and io["total"]["iters"] == sum(m["iters"] for m in io["per"]), f"total {io['total']} per {io['per']}"))
         if "t1_pops" in caps and caps["t1_pops"] >= 0:
             res.append(("t1_total_pops_within_slice_budget", io["total"]["pops"] <= caps["t1_pops"],
                         f"total pops {io['total']['pops']} > slice budget t1_pops={caps['t1_pops']} over {len(case['graphs'])} active graphs"))
@@ -383,11 +400,12 @@ def _mem_state(n: int) -> dict:
     from clematis.adapters.embeddings import BGEAdapter
     store = InMemoryGraphStore()
     store.ensure("g")
-    store.upsert_nodes("g", [Node(id="n:apple", label="apple")])
+    # one node per episode topic: the residual nudges reveal which hits were actually used
+    store.upsert_nodes("g", [Node(id="n:apple", label="apple")] + [Node(id=f"n:topic{k}", label=f"topic{k}") for k in range(n)])
     idx = InMemoryIndex()
     enc = BGEAdapter(dim=32)
     for k in range(n):
-        text = f"apple story number {k}"
+        text = f"apple story number {k} about topic{k}"
         idx.add({"id": f"ep{k}", "owner": "A", "text": text, "tags": [], "ts": "2025-08-2%dT00:00:00Z" % (k % 9),
                  "vec_full": enc.encode([text])[0].astype(np.float32), "aux": {"importance": 0.5}})
     return {"store": store, "active_graphs": ["g"], "mem_index": idx}
@@ -707,6 +725,10 @@ class HistT2(StageComp):
             if not isinstance(cap, dict):
                 res.append(("t2_k_used_clamped", o["warm"]["k_used"] <= _cap_value(cap),
                             f"call {ci}: k_used {o['warm']['k_used']} > t2_k {cap!r} (calls {case['calls']})"))
+            used = o["warm"]["ids"][: o["warm"]["k_used"]]
+            allowed = set((["n:apple"] if used else []) + ["n:topic" + i[2:] for i in used])
+            res.append(("t2_residual_from_used_hits_only", set(o["warm"]["residual"]) <= allowed,
+                        f"call {ci} (t2_k {cap!r}): residual nudges {o['warm']['residual']} come from hits beyond the {o['warm']['k_used']} used ones {used}"))
             res.append(("t2_same_as_uncached", o["warm"] == o["ref"],
                         f"call {ci} (t2_k {cap!r}, calls {case['calls']}): served {o['warm']} but this slice computes {o['ref']}"))
         return res
